@@ -117,9 +117,16 @@ def run(fn, show, watchdog=None):
 
 
 # ---------- wire ----------
+def weekday_ok(w):
+    """the `weekday` attribute of a relativedelta must be None or a weekday object"""
+    return w is None or (hasattr(w, "weekday") and hasattr(w, "n") and isinstance(w.weekday, int))
+
+
 def wd_tokens(w):
     if w is None:
         return "- -"
+    if not weekday_ok(w):
+        return "BAD(%r) -" % (w,)      # not a weekday object: never equal to a model response (and never a crash)
     return "%d %s" % (w.weekday, oint(w.n))
 
 
@@ -236,6 +243,20 @@ def source_ydayidx():
     return None
 
 
+def with_generated(reqs, exp):
+    """every request to a hand-model op is repeated against the definition RE-TRANSLATED from /repo on this run
+    (Generated/RDOps.lean, ops rdgen.*): the translator is validated against the implementation like the model is"""
+    gen = {"rd.add": "rdgen.add", "rd.rsub": "rdgen.rsub", "rd.mk": "rdgen.mk", "rd.expr": "rdgen.expr",
+           "rd.bool": "rdgen.bool", "rd.hash": "rdgen.hash", "rd.eq": "rdgen.eq", "rd.diff": "rdgen.diff",
+           "rd.diffn": "rdgen.diffn", "rd.diffo": "rdgen.diffo"}
+    r2, e2 = list(reqs), list(exp)
+    for q, e in zip(reqs, exp):
+        op = q.split(" ", 1)[0]
+        if op in gen:
+            r2.append(gen[op] + q[len(op):]); e2.append(e)
+    return r2, e2
+
+
 # ---------- generators ----------
 BOUNDARY = [0, 1, -1, 2, 11, 12, 13, 23, 24, 25, 59, 60, 61, 119, 120, 999999, 1000000, 1000001, 86399, 86400, 86401]
 
@@ -265,7 +286,9 @@ def g_weekday(rng, int_ok=True, wild=False):
     from dateutil._common import weekday
     from dateutil import relativedelta as R
     r = rng.random()
-    if int_ok and r < 0.2:
+    if int_ok and r < 0.25:
+        if rng.random() < 0.35:
+            return 0                                     # calendar.MONDAY: the falsy integer weekday
         return rng.randint(-9, 8) if wild else rng.randint(0, 6)
     w = rng.randint(0, 6)
     r = rng.random()
